@@ -204,6 +204,18 @@ Fixpoint all_joins_ok (scripts : list (list qcall)) (es : list event) (ks : list
   | _, _ => true
   end.
 
+(* join is exact, the other direction: no join is left blocked once every item put has been
+   matched by a task_done.  Judged at a deadlock end (no thread is enabled, so no task_done can
+   still run and nothing will ever wake the joiner): a main thread whose current call is join
+   while the specification count of unfinished tasks is zero. *)
+Fixpoint join_stuck_ok (cnt : Z) (scs : list (list qcall)) (res : list (list Z)) (fins : list bool) : bool :=
+  match scs, res, fins with
+  | sc :: scs', rm :: _rf :: res', fm :: _ff :: fins' =>
+    let '(id, _, _, _) := nth (length rm) sc (99%nat, 0, 0, 0) in
+    negb (negb fm && Nat.eqb id 5 && (cnt <=? 0)) && join_stuck_ok cnt scs' res' fins'
+  | _, _, _ => true
+  end.
+
 Definition qmonitors (kind maxsize : Z) (scripts : list (list qcall)) (o : qobserved) : bool :=
   let '(es, ks, res, fins, vals, pipe, bufs, pend, endk) := o in
   all_calls_ok scripts es ks 0 scripts res && traffic_ok scripts es pipe
@@ -211,7 +223,8 @@ Definition qmonitors (kind maxsize : Z) (scripts : list (list qcall)) (o : qobse
   && forallb (fun v => 0 <=? v) vals
   && ((endk =? 2) || feeders_ok 0 bufs pend)
   && all_joins_ok scripts es ks 0 scripts res
-  && taskdone_ok scripts es ks (0 :: unfinished_after scripts 0 es ks).
+  && taskdone_ok scripts es ks (0 :: unfinished_after scripts 0 es ks)
+  && (negb (endk =? 1) || join_stuck_ok (last (unfinished_after scripts 0 es ks) 0) scripts res fins).
 
 (* ------------------------------------------------------------------ correspondence *)
 Definition qmodel_obs (maxsize : Z) (scripts : list (list qcall)) (sched : list (nat * bool)) :=
